@@ -171,6 +171,75 @@ def _mask(d, path):
         cur[last] = "<masked>"
 
 
+def case_node_sets(spec, cov, out):
+    """node_sets (office-lan) expanded by the loader vs the structure its documentation promises: num_pcs computers named
+    pc_<i>_<lan> with consecutive addresses, every computer cabled to exactly one 24-port edge switch holding at most 23 of them, as few
+    edge switches as that allows, a core switch exactly when there are several edge switches, a router exactly when asked for - and
+    then cabled so that every computer can reach it."""
+    from primaite.simulator.network.hardware.nodes.host.computer import Computer
+    from primaite.simulator.network.hardware.nodes.network.router import Router
+    from primaite.simulator.network.hardware.nodes.network.switch import Switch
+
+    n_pcs, inc, lan, base, start = spec["num_pcs"], spec["include_router"], spec["lan"], spec["subnet_base"], spec["start"]
+    cfg = corpus.Net().scenario()
+    cfg["simulation"]["network"]["node_sets"] = [{"type": "office-lan", "lan_name": lan, "subnet_base": base, "pcs_ip_block_start": start,
+                                                   "num_pcs": n_pcs, "include_router": inc, "bandwidth": spec.get("bandwidth", 100)}]
+    ctx = {"node_set": cfg["simulation"]["network"]["node_sets"][0]}
+    try:
+        game = corpus.build_game(cfg)
+    except Exception as e:
+        et, site = envrun.exc_site(e)
+        out.append(viol(f"node-set-does-not-load/{et}@{site}", f"office-lan {ctx['node_set']}: from_config raised {et}: {str(e)[:200]}", ctx))
+        return
+    net = game.simulation.network
+    cov.inc("node_sets_built")
+    cov.hit("node_set_sizes", f"{n_pcs}|router={inc}")
+    nodes = {x.config.hostname: x for x in net.nodes.values()}
+    pcs = {h: x for h, x in nodes.items() if isinstance(x, Computer)}
+    sws = {h: x for h, x in nodes.items() if isinstance(x, Switch)}
+    rts = {h: x for h, x in nodes.items() if isinstance(x, Router)}
+
+    def bad(kind, msg):
+        if not any(o["mech"] == f"node-set-built-differs-from-declared/{kind}" for o in out):
+            out.append(viol(f"node-set-built-differs-from-declared/{kind}", f"office-lan num_pcs={n_pcs} include_router={inc}: {msg}", ctx))
+
+    want_pcs = {f"pc_{i}_{lan}": f"192.168.{base}.{start + i - 1}" for i in range(1, n_pcs + 1)}
+    got_pcs = {h: str(x.network_interface[1].ip_address) for h, x in pcs.items()}
+    if got_pcs != want_pcs:
+        bad("computers", f"computers {sorted(got_pcs.items())[:3]}.. ({len(got_pcs)}) != declared {sorted(want_pcs.items())[:3]}.. ({len(want_pcs)})")
+    n_edge = -(-n_pcs // 23)
+    want_sw = {f"switch_edge_{k}_{lan}" for k in range(1, n_edge + 1)} | ({f"switch_core_{lan}"} if n_edge > 1 else set())
+    if set(sws) != want_sw:
+        bad("switches", f"switches {sorted(sws)} != {sorted(want_sw)} ({n_edge} edge switch(es) hold {n_pcs} computers at 23 each)")
+    if set(rts) != ({f"router_{lan}"} if inc else set()):
+        bad("router", f"routers {sorted(rts)} for include_router={inc}")
+    # cabling: every computer on exactly one edge switch, at most 23 per switch; everything in one connected component (incl. the router)
+    adj = {h: set() for h in nodes}
+    per_switch = {}
+    for link in net.links.values():
+        a, b = link.endpoint_a._connected_node.config.hostname, link.endpoint_b._connected_node.config.hostname
+        adj[a].add(b)
+        adj[b].add(a)
+    for h in pcs:
+        nb = adj[h]
+        if len(nb) != 1 or not next(iter(nb)).startswith("switch_edge_"):
+            bad("cabling", f"{h} is cabled to {sorted(nb)} (expected exactly one edge switch)")
+        else:
+            per_switch[next(iter(nb))] = per_switch.get(next(iter(nb)), 0) + 1
+    if any(v > 23 for v in per_switch.values()):
+        bad("cabling", f"an edge switch holds more than 23 computers: {per_switch}")
+    if nodes:
+        seen, todo = set(), [next(iter(nodes))]
+        while todo:
+            x = todo.pop()
+            if x not in seen:
+                seen.add(x)
+                todo += list(adj[x] - seen)
+        if seen != set(nodes):
+            bad("connectivity", f"nodes not connected to the rest of the LAN: {sorted(set(nodes) - seen)[:5]}")
+    cov.inc("node_set_items_compared", len(nodes) + len(net.links))
+
+
 def case_metamorphic(spec, cov, out):
     rnd = random.Random(spec["seed"])
     cfg = cfg_of(spec["src"])
@@ -260,7 +329,7 @@ def locate(cfg, vcfg, base, base_spec, upto=12):
     return "+".join(hits[:3]) if hits else "<combination>"
 
 
-RUN = {"inventory": case_inventory, "metamorphic": case_metamorphic}
+RUN = {"inventory": case_inventory, "metamorphic": case_metamorphic, "node_sets": case_node_sets}
 
 
 class Check:
@@ -297,6 +366,13 @@ class Check:
         for s in range(6 if q else 30):
             sd = seed * 1000 + 700 + s
             specs.append({"name": f"meta-gen-{sd}", "kind": "metamorphic", "src": ["gen", {"seed": sd}], "seed": sd, "steps": 40 if q else 96, "perms": 3 if q else 10})
+        # node sets: every size around the 23-computers-per-switch boundaries (and a random sample in between), with and without router
+        rnd = random.Random(seed)
+        sizes = [1, 2, 22, 23, 24, 45, 46, 47, 69, 70] + ([] if q else [68, 92, 115, 116]) + [rnd.randint(3, 120) for _ in range(4 if q else 20)]
+        for n_ in sizes:
+            for inc in (True, False):
+                specs.append({"name": f"office-lan-{n_}-{'router' if inc else 'norouter'}", "kind": "node_sets", "num_pcs": n_, "include_router": inc,
+                              "lan": rnd.choice(["hq", "CORP_LAN", "L"]), "subnet_base": rnd.randint(2, 200), "start": rnd.randint(10, 100), "bandwidth": rnd.choice([100, 150, 45])})
         return specs
 
     def run_case(self, spec):
@@ -304,8 +380,8 @@ class Check:
         r = RUN[spec["kind"]](spec, cov, out)
         if isinstance(r, dict) and "harness_error" in r:
             return r
-        return {"violations": out, "cov": cov.d, "nontrivial": cov.d.get("scenarios_inventoried", 0) + cov.d.get("variants_compared", 0) > 0,
-                "digest": digest(spec.get("src")) + spec["kind"][:3] + str(spec.get("episode", "")), "sample": {"case": spec, "items": cov.d.get("items")}}
+        return {"violations": out, "cov": cov.d, "nontrivial": cov.d.get("scenarios_inventoried", 0) + cov.d.get("variants_compared", 0) + cov.d.get("node_sets_built", 0) > 0,
+                "digest": digest(spec.get("src") or spec["name"]) + spec["kind"][:3] + str(spec.get("episode", "")), "sample": {"case": spec, "items": cov.d.get("items")}}
 
 
 CHECK = Check()
